@@ -250,6 +250,9 @@ pub struct Stats {
     pub samples: Vec<Value>,
     pub exhaustive_subspaces: Vec<String>,
     pub notes: Vec<String>,
+    /// generated cases that were not evaluated because the shard's soft deadline had passed
+    #[serde(default)]
+    pub skipped_after_deadline: u64,
 }
 
 impl Stats {
@@ -267,6 +270,7 @@ impl Stats {
             *self.kf_hits.entry(k.clone()).or_insert(0) += v;
         }
         self.inconclusive += o.inconclusive;
+        self.skipped_after_deadline += o.skipped_after_deadline;
         for s in &o.samples {
             if self.samples.len() < 6 {
                 self.samples.push(s.clone());
@@ -394,6 +398,9 @@ pub struct Ctx {
     pub kf: KnownFindings,
     pub stats: RefCell<Stats>,
     pub failure: Option<FailureReport>,
+    /// After this instant no further generated case is evaluated (the rest is counted as skipped): a time
+    /// budget that runs out makes the run shorter, never a failure. Set by the parent from the tier's budget.
+    pub soft_deadline: Option<std::time::Instant>,
 }
 
 impl Ctx {
@@ -407,6 +414,7 @@ impl Ctx {
             kf: KnownFindings::load(),
             stats: RefCell::new(Stats::default()),
             failure: None,
+            soft_deadline: std::env::var("VERIF_SOFT_DEADLINE_S").ok().and_then(|v| v.parse::<f64>().ok()).map(|s| std::time::Instant::now() + std::time::Duration::from_secs_f64(s)),
         }
     }
 
@@ -457,9 +465,16 @@ impl Ctx {
             let stats = &self.stats;
             let kf = &self.kf;
             let tier = self.tier;
+            let soft_deadline = self.soft_deadline;
             runner.run(&strat, |case| {
                 let counting = !*failed.borrow();
                 if counting {
+                    if let Some(d) = soft_deadline {
+                        if std::time::Instant::now() > d {
+                            stats.borrow_mut().skipped_after_deadline += 1;
+                            return Ok(());
+                        }
+                    }
                     stats.borrow_mut().evaluations += 1;
                 }
                 let mut env = CaseEnv { kf, tier, stats, counting, replay: false };
@@ -560,6 +575,12 @@ impl Ctx {
             return;
         }
         for case in cases {
+            if let Some(d) = self.soft_deadline {
+                if std::time::Instant::now() > d {
+                    self.stats.borrow_mut().skipped_after_deadline += 1;
+                    continue;
+                }
+            }
             self.stats.borrow_mut().evaluations += 1;
             db::clear_panics();
             let mut env = self.env(true);
